@@ -149,9 +149,13 @@ def compare_one(pid, line, mlines, res):
             ok = res["fate"] == "signal 6" and len([l for l in ilines if hrun.parse_line(l)]) == i - 1
             if ok and mp["out"].startswith("allocabort"):
                 size = int(mp["out"].split(":")[1])
-                ok = res.get("alloc_error") in (None, size) if "alloc_error" in res else True
-                if res.get("alloc_error") is not None and res["alloc_error"] != size:
-                    ok = False
+                # the standard handler names the size it was asked for
+                ok = res.get("alloc_error") == size
+            mf = [x for x in mp["alloc"].split(",") if x.startswith("f") and ":h" in x]
+            af = [l[len("ALLOCFAIL "):].strip() for l in res.get("raw_lines", ilines) if l.startswith("ALLOCFAIL ")]
+            if ok and mf and af and mf[-1] != af[0]:
+                return n, {"at": mp["k"], "model": ml, "impl": "refused realloc saw " + af[0],
+                           "why": "the block's header at the moment the request is refused differs (model: %s)" % mf[-1]}
             if not ok:
                 return n, {"at": mp["k"], "model": ml, "impl": "fate=%s after %d lines, alloc_error=%s" % (res["fate"], len(ilines) - 1, res.get("alloc_error")),
                            "why": "model predicts %s" % mp["out"]}
